@@ -56,6 +56,10 @@ def step (_ : Unit) : List String → Unit × List String
     ((), [showIdx (Shards.assignWith (Shards.choiceFn ((int n).toNat - 1) l) (int n) (int t))])
   | "zkprove" :: m :: y :: _ => ((), [if decide (Zk.relBytes (fun _ => nat m) 0 (ofHex y)) then "ok" else "err"])
   | "zkverify" :: m :: y :: _ => ((), [if decide (Zk.relBytes (fun _ => nat m) 0 (ofHex y)) then "ok" else "err"])
+  | ["msgvp", idx, ms, ys] =>
+    let csv (x : String) : List String := if x = "-" then [] else x.splitOn ","
+    let r := Zk.submitValidityProof ((csv idx).map int) ((csv ms).map nat) ((csv ys).map fun y => if y = "e" then [] else ofHex y)
+    ((), [r.cls])
   | "zkdecode" :: _ => ((), [])   -- decoding of proof bytes is outside the model (oracle only)
   | _ => ((), ["bad-op"])
 
